@@ -426,6 +426,17 @@ func checkVerifyGate(p *Prog, r *Report, fn *ssa.Function, closeCall ssa.CallIns
 			continue
 		}
 		a, b := eq.Common().Args[0], eq.Common().Args[1]
+		// the comparison may sit in a helper (verifyFileSum(localSum)): a parameter
+		// operand is the argument of the helper's (single) call site
+		resolve := func(v ssa.Value) ssa.Value {
+			if _, isP := v.(*ssa.Parameter); isP {
+				if roots := p.ModGraph().paramRoots(v, 0); len(roots) == 1 {
+					return roots[0]
+				}
+			}
+			return v
+		}
+		a, b = resolve(a), resolve(b)
 		for _, pair := range [][2]ssa.Value{{a, b}, {b, a}} {
 			sum, buf := pair[0], pair[1]
 			sc, ok := sum.(*ssa.Call)
@@ -454,12 +465,28 @@ func checkVerifyGate(p *Prog, r *Report, fn *ssa.Function, closeCall ssa.CallIns
 				continue
 			}
 			filled := false
-			allCalls(fn, func(c ssa.CallInstruction) {
+			// the sum is taken before the trailer is read: directly, or before the helper that reads it is called
+			sumFirst := func(c ssa.CallInstruction) bool {
+				if c.Parent() == sc.Parent() {
+					return InstrDominates(sc, c)
+				}
+				okAll, n := true, 0
+				allCalls(sc.Parent(), func(hc ssa.CallInstruction) {
+					if hc.Common().StaticCallee() == c.Parent() {
+						n++
+						if !InstrDominates(sc, hc) {
+							okAll = false
+						}
+					}
+				})
+				return okAll && n > 0
+			}
+			allCalls(eq.Parent(), func(c ssa.CallInstruction) {
 				if calleeName(c) != "io.ReadFull" {
 					return
 				}
 				ra := c.Common().Args
-				if ra[1] == buf && isFieldLoad(stripConv(ra[0]), connReader) && InstrDominates(c, eq) && InstrDominates(sc, c) {
+				if ra[1] == buf && isFieldLoad(stripConv(ra[0]), connReader) && InstrDominates(c, eq) && sumFirst(c) {
 					if call, ok := c.(*ssa.Call); ok {
 						// and its error aborts
 						if ok2, _ := errPropagated(call); ok2 {
